@@ -58,6 +58,9 @@ def zernike(mask, index, normalize=True, rho=None, theta=None):
     #mask = mask[mask_slice]
 
     if rho is None:
+        if theta is not None:
+            # (an azimuth alone would be silently replaced by the default)
+            raise ValueError("Both rho and theta must be specified")
         rho, theta = zernike_coordinates(mask)
     else:
         if theta is None:
